@@ -1033,18 +1033,35 @@ fn apply_write(m: &mut Model, h: usize, accepted: u64, _asked: u64) {
     hd.gen += 1;
     let node = m.nodes.get_mut(&nid).unwrap();
     let end = (pos + accepted) as usize;
+    let old_len = node.data.len();
     if node.data.len() < end {
         node.data.resize(end, 0);
     }
     for i in 0..accepted {
-        node.data[(pos + i) as usize] = model::pattern(nid, pos + i, gen);
+        let old = node.data[(pos + i) as usize];
+        // (bytes beyond the old end were just created by the resize: no old content there)
+        let had = (pos + i) < old_len as u64;
+        node.data[(pos + i) as usize] = fresh_byte(if had { Some(old) } else { None }, nid, pos + i, gen);
     }
     m.changed_since_mount = true;
 }
 
+/// the byte a write stores at `off`: the pattern of the handle's write generation, but never the byte that is already
+/// there (every modelled write really changes the data it covers; a library that skips rewriting equal bytes is right)
+fn fresh_byte(old: Option<u8>, nid: Nid, off: u64, gen: u32) -> u8 {
+    for d in 0..3 {
+        let b = model::pattern(nid, off, gen + d);
+        if Some(b) != old {
+            return b;
+        }
+    }
+    model::pattern(nid, off, gen) ^ 0x40
+}
+
 fn write_buf(m: &Model, h: usize, len: u64) -> Vec<u8> {
     let hd = m.fh[h].as_ref().unwrap();
-    (0..len).map(|i| model::pattern(hd.nid, hd.pos + i, hd.gen)).collect()
+    let data = &m.nodes[&hd.nid].data;
+    (0..len).map(|i| fresh_byte(data.get((hd.pos + i) as usize).copied(), hd.nid, hd.pos + i, hd.gen)).collect()
 }
 
 fn exec_op<'a>(fs: &'a Fs, slots: &mut Slots<'a>, m: &Model, op: &Op, cluster_size: u32) -> Res {
